@@ -128,34 +128,34 @@ def run(prop: str, tier: str, seed: int) -> int:
     t0 = time.time()
     q = tier == "quick"
     if prop == "C09":
-        specs = gen.family_V(seed, 12 if q else 120)
+        specs = gen.family_V(seed, 12 if q else 50)
     elif prop == "C04":
-        specs = gen.family_X(seed, 9 if q else 90, race=True) + gen.family_V(seed + 1, 6 if q else 60)
+        specs = gen.family_X(seed, 9 if q else 30, race=True) + gen.family_V(seed + 1, 6 if q else 20)
     elif prop == "C14":
-        specs = gen.family_X(seed, 7 if q else 70) + gen.family_V(seed + 1, 6 if q else 60)
+        specs = gen.family_X(seed, 7 if q else 24) + gen.family_V(seed + 1, 6 if q else 20)
     else:
-        specs = gen.family_X(seed, 14 if q else 140)
-    units = [{"specs": [sp], "maxnow": 200 if q else 320, "waits": (30,) if q else (20, 45), "depth": 7 if q else 9,
+        specs = gen.family_X(seed, 14 if q else 40)
+    units = [{"specs": [sp], "maxnow": 200 if q else 320, "waits": (30,) if q else (20, 45), "depth": 7 if q else 8,
               "tlc_workers": 2, "prop": prop} for sp in specs]
     if prop == "C09":
         # the sync engine calls a (plain callable) service at the invocation and queues its outcome at once
-        for sp in [x for x in gen.family_V(seed + 7, 10 if q else 60) if "plain" in x.label]:
+        for sp in [x for x in gen.family_V(seed + 7, 10 if q else 30) if "plain" in x.label]:
             sp2 = gen.Spec(sched.strip_slow(sp.config), sp.family, sp.label + "-sync")
             for attr in ("services", "events", "missing"):
                 if hasattr(sp, attr):
                     setattr(sp2, attr, getattr(sp, attr))
             sp2.events = [e for e in (sp2.events or []) if e != "SLOW"]
-            units.append({"specs": [sp2], "maxnow": 200 if q else 320, "waits": (30,) if q else (20, 45), "depth": 7 if q else 9,
+            units.append({"specs": [sp2], "maxnow": 200 if q else 320, "waits": (30,) if q else (20, 45), "depth": 7 if q else 8,
                           "tlc_workers": 2, "prop": prop, "engine": "sync"})
     if prop in ("C08", "C14"):
         # the sync engine's timer threads under virtual time (harness/vthreads.py); no coroutine actions, no services
-        for sp in gen.family_X(seed + 7, 8 if q else 80):
+        for sp in gen.family_X(seed + 7, 8 if q else 24):
             sp2 = gen.Spec(sched.strip_slow(sp.config), sp.family, sp.label + "-sync")
             for attr in ("delays", "events", "missing"):
                 if hasattr(sp, attr):
                     setattr(sp2, attr, getattr(sp, attr))
             sp2.events = [e for e in (sp2.events or []) if e != "SLOW"]
-            units.append({"specs": [sp2], "maxnow": 200 if q else 320, "waits": (30,) if q else (20, 45), "depth": 7 if q else 9,
+            units.append({"specs": [sp2], "maxnow": 200 if q else 320, "waits": (30,) if q else (20, 45), "depth": 7 if q else 8,
                           "tlc_workers": 2, "prop": prop, "engine": "sync"})
     if NPROC > 1:
         import concurrent.futures as cf
